@@ -1,5 +1,5 @@
 """Registry: property id -> generator (+ optional extra check, per-command timeout)."""
-import fwd, grad
+import fwd, grad, comp, total
 
 REGISTRY = {
     'C01': {'gen': grad.gen_C01, 'cmd_timeout_ms': 8000},
@@ -10,4 +10,14 @@ REGISTRY = {
     'C06': {'gen': fwd.gen_C06},
     'C07': {'gen': grad.gen_C07},
     'C08': {'gen': grad.gen_C08},
+    'C09': {'gen': total.gen_C09},
+    'C10': {'gen': total.gen_C10},
+    'C11': {'gen': comp.gen_C11},
+    'C12': {'gen': comp.gen_C12},
+    'C13': {'gen': comp.gen_C13},
+    'C14': {'gen': comp.gen_C14},
+    'C15': {'gen': comp.gen_C15},
+    'C16': {'gen': comp.gen_C16},
+    'C17': {'gen': comp.gen_C17},
+    'C19': {'gen': comp.gen_C19},
 }
